@@ -1,6 +1,6 @@
 (* C07 — lemmas and proofs. *)
 From Coq Require Import List NArith ZArith Bool Arith Lia Permutation.
-From DuneV Require Import C07_Model C07_Spec.
+From DuneV Require Import Params_gen C07_Model C07_Spec.
 Import ListNotations.
 
 (* ------------------------------------------------------------------ buffers *)
@@ -360,11 +360,16 @@ Section PackProofs.
     - simpl. rewrite <- Hn, dec_enc_elems by assumption. simpl in Hlen. now rewrite Hlen.
   Qed.
 
+  (* the growth policy as written in the source (c07_param_pack_grow_only, re-read on every run): grow only *)
+  Lemma pk_grow_eq : forall buf need,
+    c07_pk_grow B zeroB c07_param_pack_grow_only buf need = if length buf <? need then buf ++ repeat zeroB (need - length buf) else buf.
+  Proof. reflexivity. Qed.
+
   (* writing at the end of the buffer appends *)
   Lemma write_append : forall (p : pack) pt els, c07_pk_pos B p = length (c07_pk_buf B p) ->
     pk_write p pt els = C07_PK B (c07_pk_buf B p ++ item_bytes pt els) (length (c07_pk_buf B p ++ item_bytes pt els)).
   Proof.
-    intros p pt els Hp. unfold c07_pk_write. rewrite Hp. set (bs := item_bytes pt els).
+    intros p pt els Hp. unfold c07_pk_write. rewrite pk_grow_eq. rewrite Hp. set (bs := item_bytes pt els).
     rewrite app_length. f_equal.
     unfold c07_overwrite.
     destruct (Nat.ltb_spec (length (c07_pk_buf B p)) (length (c07_pk_buf B p) + length bs)).
@@ -429,7 +434,7 @@ Section PackProofs.
     c07_pk_pos B p' = c07_pk_pos B p + length (item_bytes pt els) /\ c07_pk_pos B p' <= length (c07_pk_buf B p') /\
     firstn (length (item_bytes pt els)) (skipn (c07_pk_pos B p) (c07_pk_buf B p')) = item_bytes pt els.
   Proof.
-    intros p pt els Hpos. unfold c07_pk_write. set (bs := item_bytes pt els). simpl.
+    intros p pt els Hpos. unfold c07_pk_write. rewrite pk_grow_eq. set (bs := item_bytes pt els). simpl.
     set (buf := if length (c07_pk_buf B p) <? c07_pk_pos B p + length bs
                 then c07_pk_buf B p ++ repeat zeroB (c07_pk_pos B p + length bs - length (c07_pk_buf B p)) else c07_pk_buf B p).
     assert (Hb : c07_pk_pos B p + length bs <= length buf /\ length (c07_pk_buf B p) <= length buf /\
@@ -463,11 +468,11 @@ Section PackProofs.
     intros p pt els Hpos.
     destruct (P_pack_write_keeps_prefix p pt els Hpos) as (H1 & _ & H3 & _ & H5).
     cbv zeta. repeat split; try assumption.
-    - unfold c07_pk_write. set (bs := item_bytes pt els). simpl. unfold c07_overwrite.
+    - unfold c07_pk_write. rewrite pk_grow_eq. set (bs := item_bytes pt els). simpl. unfold c07_overwrite.
       destruct (Nat.ltb_spec (length (c07_pk_buf B p)) (c07_pk_pos B p + length bs)).
       + rewrite !app_length, firstn_length, skipn_length, !app_length, repeat_length. lia.
       + rewrite !app_length, firstn_length, skipn_length. lia.
-    - unfold c07_pk_write. set (bs := item_bytes pt els). simpl. unfold c07_overwrite.
+    - unfold c07_pk_write. rewrite pk_grow_eq. set (bs := item_bytes pt els). simpl. unfold c07_overwrite.
       destruct (Nat.ltb_spec (length (c07_pk_buf B p)) (c07_pk_pos B p + length bs)).
       + rewrite (skipn_all2 (c07_pk_buf B p)) by lia.
         apply skipn_all2. rewrite !app_length, firstn_length, skipn_length, !app_length, repeat_length. lia.
@@ -503,7 +508,7 @@ Section PackProofs.
     intros items1 items2 pt old new Hwt Hlen p p1 p2. subst p2 p1 p.
     rewrite write_all_append by reflexivity. simpl c07_pk_buf. simpl ([] ++ _).
     rewrite all_bytes_app. simpl all_bytes at 1. fold (all_bytes items2).
-    unfold c07_pk_write, c07_pk_seek, c07_pk_size, c07_pk_eof. simpl.
+    unfold c07_pk_write, c07_pk_seek, c07_pk_size, c07_pk_eof. rewrite pk_grow_eq. simpl.
     set (pre := all_bytes items1). set (bo := item_bytes pt old). set (bn := item_bytes pt new). set (post := all_bytes items2).
     assert (Hno : (length (pre ++ bo ++ post) <? length pre + length bn) = false).
     { apply Nat.ltb_ge. rewrite !app_length. fold bo bn in Hlen. lia. }
@@ -532,7 +537,7 @@ Proof.
 Qed.
 
 Definition wt_n (s : nat) (v : N) : Prop := (v < 256 ^ N.of_nat s)%N.
-Definition lenok_n (n : nat) : Prop := (N.of_nat n < 256 ^ 4)%N.
+Definition lenok_n (n : nat) : Prop := (N.of_nat n < 256 ^ N.of_nat c07_prefix_bytes)%N.
 
 Lemma dec_enc_n : forall s v rest, wt_n s v -> c07_dec_n s (c07_enc_n s v ++ rest) = Some (v, rest).
 Proof.
